@@ -349,6 +349,10 @@ func (g *TG) option(t reflect.Type) string {
 		return ",flat"
 	case (k == reflect.String || bt == model.NullStringT) && g.R.IntN(3) == 0:
 		return ",intern"
+	case ((k == reflect.Map && !g.AllMapsProto) || k == reflect.Slice) && bt != model.BytesT && g.R.IntN(10) == 0:
+		// intern is accepted on containers too and changes nothing about their encoding: a slice of strings
+		// is still counted, or repeated where the instance says so (round 11: q12)
+		return ",intern"
 	case k == reflect.Map && bt != model.JSONMapT && !g.NoProtoOpt && (g.AllMapsProto || g.R.IntN(3) == 0):
 		if g.C.Validate(t, "proto") == "" {
 			return ",proto"
